@@ -542,7 +542,8 @@ fn feb29_hint_body<const Y: i32>() {
     let d = any_date_of::<Y>();
     let between = any_date();
     let hint = r.next_change_hint(d, &ctx());
-    vpost!("C02.dated.feb29_hint_exists", hint.is_some());
+    // a missing hint is always sound (the iterator then advances day by day): reachability only
+    vcover!("dated.cover_feb29_hint_exists", hint.is_some());
     if let Some(h) = hint {
         vpost!("C02.dated.feb29_hint_is_after_the_date", h > d);
         vpost!(
@@ -743,7 +744,8 @@ fn start_year_hint_body<const Y: i32>(end_has_year: bool) {
     nd::assume(s <= e);
     let hint = r.next_change_hint(d, &ctx());
     let inside = |x: NaiveDate| s <= x && x <= e;
-    vpost!("C02.dated.start_year_hint_exists", hint.is_some());
+    // a missing hint is always sound (the iterator then advances day by day): reachability only
+    vcover!("dated.cover_start_year_hint_exists", hint.is_some());
     if let Some(h) = hint {
         vpost!("C02.dated.start_year_hint_is_after_the_date", h > d);
         vpost!("C02.dated.start_year_hint_no_change_before_hint", !(d < between && between < h && inside(between) != inside(d)));
@@ -896,7 +898,8 @@ fn fixed_no_year_hint_body<const Y: i32>() {
     nd::assume(!(sm == Month::February && em == Month::February && sd == 29 && ed == 29));
     let spec = |x: NaiveDate| spec_fixed_no_year(sm as u32, sd as u32, em as u32, ed as u32, x);
     let hint = r.next_change_hint(d, &ctx());
-    vpost!("C02.dated.year_less_hint_exists", hint.is_some());
+    // a missing hint is always sound (the iterator then advances day by day): reachability only
+    vcover!("dated.cover_year_less_hint_exists", hint.is_some());
     if let Some(h) = hint {
         vpost!("C02.dated.year_less_hint_is_after_the_date", h > d);
         vpost!("C02.dated.year_less_hint_no_change_before_hint", !(d < between && between < h && spec(between) != spec(d)));
